@@ -209,7 +209,7 @@ def build_driver(name, src, defines=(), lb=True, opt="-O1", extra_src=(), libs=(
     os.makedirs(bdir, exist_ok=True)
     exe = os.path.join(bdir, name)
     inc = config_h_flags(bdir) + ["-I", os.path.join(REPO, "include"), "-I", os.path.join(REPO, "src"), "-I", HARNESS]
-    base = ["gcc", "-g", opt, "-fno-omit-frame-pointer", "-D_GNU_SOURCE", "-DREPO_SRC(x)=\"%s/src/\" #x" % REPO, "-Wall", "-Wno-unused-function", "-Wno-unused-variable"]
+    base = ["gcc", "-g", opt, "-fno-omit-frame-pointer", "-D_GNU_SOURCE", "-DREPO_SRC(x)=#x", "-Wall", "-Wno-unused-function", "-Wno-unused-variable"]
     rt = os.path.join(bdir, "vrt.o")
     r = sh(["gcc", "-g", "-O1", "-D_GNU_SOURCE", "-I", HARNESS, "-c", os.path.join(HARNESS, "vrt.c"), "-o", rt], capture_output=True, text=True)
     if r.returncode:
